@@ -26,7 +26,7 @@ ASSUMPTIONS = ["out-of-envelope values are not judged (only acceptance inside th
                "value at the altitude the frame itself reports must not be inferred as BDS60",
                "T1 observes the isXX predicates of the repository itself; their soundness/completeness is what T2/T3 judge",
                "DF20 BDS 6,0 contents are generated with IAS within 10 kt of the Mach-consistent value at the frame's altitude"]
-REQUIRED = ["same_payload_under_another_header_first", "t0_random", "t1_df17", "t1_commb", "t1_empty", "t4_none", "t4_decided50", "t4_decided60", "t4_both", "t5_alt_le0", "t5_metric_header_altitude",
+REQUIRED = ["same_payload_under_another_header_first", "t0_random", "t1_df17", "t1_commb", "t1_empty", "t4_none", "t4_decided50", "t4_decided60", "t4_both", "t5_alt_le0", "t5_metric_header_altitude", "t4_reference_within_ulps_of_a_candidate",
             "t5_alt_pos"] + \
            ["t2_BDS%s" % r for r in ("10", "17", "20", "30", "40", "44", "45", "50", "60")] + \
            ["t3_BDS%s" % r for r in ("10", "17", "20", "30", "40", "44", "45", "50", "60")]
@@ -426,6 +426,29 @@ def m_t4(ctx, case):
         spd = rng.choice((rng.uniform(0, 600), 320.0))
         trk = rng.choice((rng.uniform(0, 360), 250.0))
         alt = rng.choice((rng.uniform(0, 45000), 14000.0, 35000.0))
+        if rng.random() < 0.3:
+            # the reference IS one of the candidate vectors, up to a few ulps (a tracker feeding back the speed / track it
+            # derived with the library's own conversions a moment ago): distances of ~1e-13 - a formula that cancels there
+            # (law of cosines) yields NaN and the nearest candidate silently drops out.  The library's own functions are
+            # used to AIM the reference only; the verdict below comes from the reference model as always.
+            try:
+                from pyModeS.decoder.bds import bds50 as _b50, bds60 as _b60
+                from pyModeS.extra import aero as _aero
+                cands = []
+                if _b50.gs50(hx) is not None and _b50.trk50(hx) is not None:
+                    cands.append((float(_b50.gs50(hx)), float(_b50.trk50(hx))))
+                if _b60.hdg60(hx) is not None and _b60.mach60(hx) is not None:
+                    cands.append((float(_aero.mach2tas(_b60.mach60(hx), alt * _aero.ft) / _aero.kts), float(_b60.hdg60(hx))))
+                if _b60.hdg60(hx) is not None and _b60.ias60(hx) is not None:
+                    cands.append((float(_aero.cas2tas(_b60.ias60(hx) * _aero.kts, alt * _aero.ft) / _aero.kts), float(_b60.hdg60(hx))))
+                cands = [c_ for c_ in cands if c_[0] == c_[0] and c_[0] > 0]
+                if cands:
+                    s_, t_ = rng.choice(cands)
+                    spd = s_ * (1.0 + rng.choice((-3, -2, -1, 0, 1, 2, 3, 40, -40)) * 1.2e-16)
+                    trk = t_ * (1.0 + rng.choice((-2, -1, 0, 0, 1, 2)) * 1.2e-16)
+                    ctx.hit("t4_reference_within_ulps_of_a_candidate")
+            except Exception:
+                pass
         r = call(bds.is50or60, hx, spd, trk, alt)
         a, b = call(IS["BDS50"], hx), call(IS["BDS60"], hx)
         ctx.ev(3)
